@@ -447,6 +447,9 @@ func (srv *Server) ShutdownContext(ctx context.Context) error {
 	}
 
 	shutdown := srv.shutdown
+	// The socket of the run that is being shut down: once the serve call has
+	// returned the Server may be started again, with another one.
+	packetConn := srv.PacketConn
 	srv.lock.Unlock()
 	verifHook("shutdown.unlocked", nil)
 
@@ -461,8 +464,8 @@ func (srv *Server) ShutdownContext(ctx context.Context) error {
 		ctxErr = ctx.Err()
 	}
 
-	if srv.PacketConn != nil {
-		srv.PacketConn.Close()
+	if packetConn != nil {
+		packetConn.Close()
 	}
 
 	return ctxErr
